@@ -289,6 +289,15 @@ pub fn start_worker() -> WorkerHandle {
     let scm_worker = ScmSocket::new(s2.into_raw_fd()).expect("scm");
     scm_main.send_listeners(&Listeners::default()).expect("send listeners");
     let job = std::thread::spawn(move || {
+        // the logger is thread-local: the worker thread needs its own (silent unless H2BB_LOG is set)
+        match std::env::var("H2BB_LOG") {
+            Ok(level) if !level.is_empty() => {
+                let _ = sozu_command_lib::logging::setup_logging("stderr", false, None, None, None, &level, "WRK");
+            }
+            _ => {
+                let _ = sozu_command_lib::logging::setup_logging("file:///dev/null", false, None, None, None, "error", "WRK");
+            }
+        }
         let mut server =
             Server::try_new_from_config(worker_ch, scm_worker, sc, ConfigState::new().produce_initial_state(), false).expect("worker");
         server.run();
